@@ -92,7 +92,26 @@ func (f *Frame) exec(instr ssa.Instruction, g *Term) {
 		r := f.callCommon(&in.Call, g, in.Pos())
 		_ = r
 	case *ssa.Call:
-		r := f.callCommon(&in.Call, g, in.Pos())
+		var r Value
+		if e.bestEffort > 0 {
+			func() {
+				defer func() {
+					if rec := recover(); rec != nil {
+						if u, ok := rec.(unsupportedErr); ok {
+							r = poisonResult(in.Call.Signature(), "init-time failure: "+u.msg)
+							if r == nil {
+								r = TupleV{}
+							}
+							return
+						}
+						panic(rec)
+					}
+				}()
+				r = f.callCommon(&in.Call, g, in.Pos())
+			}()
+		} else {
+			r = f.callCommon(&in.Call, g, in.Pos())
+		}
 		if r == nil {
 			r = TupleV{}
 		}
@@ -649,7 +668,7 @@ func (e *Engine) sliceElems(s SliceV) ([]Value, bool) {
 
 func (e *Engine) newArrayCell(elem types.Type, n int) *Cell {
 	at := types.NewArray(elem, int64(n))
-	c := &Cell{id: nextID(), typ: at, elems: make([]*Cell, n)}
+	c := &Cell{id: nextID(), typ: at, elems: make([]*Cell, n), allocG: curGuard}
 	z := zero(elem)
 	for i := range c.elems {
 		c.elems[i] = newCell(elem, z)
@@ -704,7 +723,7 @@ func (e *Engine) boundOf(t *Term, what string, g *Term, pos token.Pos) int {
 	}
 	// Ask the solver for a bound by trying small limits.
 	for _, lim := range []int{defaultSymLenBound, 4 * defaultSymLenBound} {
-		if !e.feasible(And(g, Cmp(OpULt, BV(64, uint64(lim)), t))) {
+		if !e.feasibleW(And(g, Cmp(OpULt, BV(64, uint64(lim)), t)), "bound") {
 			return lim
 		}
 	}
